@@ -1960,6 +1960,17 @@ def fold_constants(body, enums):
                     keep = copy.deepcopy(n["rhs"])
                     n.clear()
                     n.update(keep)
+        elif k == "Bin" and n.get("op") in ("+", "-", "*") and "cv" not in n and isinstance(n.get("lhs"), dict) and isinstance(n.get("rhs"), dict):
+            # integer arithmetic over constants the front end did not fold in a template instance (`1 + sizeof(T)`)
+            a_, b_ = ir.const_value(n["lhs"]), ir.const_value(n["rhs"])
+            t_ = (n.get("t") or "").replace("const ", "")
+            if isinstance(a_, int) and isinstance(b_, int) and not isinstance(a_, bool) and not isinstance(b_, bool) and \
+                    t_ in ("unsigned long", "long", "int", "unsigned int", "std::size_t", "size_t", "unsigned long long", "long long"):
+                v_ = a_ + b_ if n["op"] == "+" else (a_ - b_ if n["op"] == "-" else a_ * b_)
+                if 0 <= v_ < (1 << 31):
+                    l_ = n.get("l")
+                    n.clear()
+                    n.update({"k": "Lit", "v": v_, "cv": v_, "t": t_, "l": l_})
         elif k == "Cond":
             # a conditional whose condition became a literal is the selected branch
             cv_ = val(n.get("c")) if isinstance(n.get("c"), dict) else None
